@@ -56,6 +56,9 @@ deriving Repr, BEq, DecidableEq
 
 structure CN where
   -- transport
+  multi : Bool := false      -- a `MultistreamConn` (SCTP): no bufio / pipe; `closeNotify` installs the
+                             -- association's error handler instead of the copy goroutine. The
+                             -- reader's bytes are those of the stream in use (demultiplexing: C19)
   coal : Bool := false       -- the transport hands over its last bytes together with the EOF / error
                              -- (`n > 0, err ≠ nil`: allowed by io.Reader, done by crypto/tls)
   inbox : List Bytes := []   -- fragments delivered by the peer, not yet read (one per Read)
@@ -162,6 +165,7 @@ def CN.step (d : DictFn) (s : CN) : CEv → Option CN
     match s.chan with
     | .none =>
       if s.gone then some { s with chan := .closed, closes := s.closes + 1 }
+      else if s.multi then some { s with chan := .open }
       else some { s with chan := .open, pending := true }
     | _ => some s
   | .handlerReturn =>
